@@ -663,8 +663,14 @@ class Gen:
                         tc.append(self.paragraph())
                     elif self.p(self.k.sdt_in_table):
                         self.feat("sdt_in_table")
-                        tc.append(self.E("w:sdt", {}, self.E("w:sdtPr"),
-                                         self.E("w:sdtContent", {}, self.paragraph())))
+                        inner = [self.paragraph()]
+                        if self.p(0.4):
+                            # a nested content control after the paragraph (D31: raised IndexError
+                            # in a horizontally merged cell with duplicate_merged_cells=True)
+                            self.feat("sdt_nested_in_cell")
+                            inner.append(self.E("w:sdt", {}, self.E("w:sdtPr"),
+                                                self.E("w:sdtContent", {}, self.paragraph())))
+                        tc.append(self.E("w:sdt", {}, self.E("w:sdtPr"), self.E("w:sdtContent", {}, *inner)))
                     else:
                         for _ in range(self.r.choice([1, 1, 1, 2])):
                             tc.append(self.paragraph())
